@@ -47,12 +47,16 @@ class Gen:
         return torch.argsort(torch.rand(*b, n, generator=self.g), dim=-1)
 
 
-def covar_lin(x1, x2, scale=None, bias=None, flag=1, **kw):
+def covar_lin(x1, x2, scale=None, bias=None, flag=1, task_covar=None, **kw):
     res = x1 @ x2.mT
+    if task_covar is not None:  # operator-valued keyword argument
+        res = res @ task_covar.to_dense()
     if scale is not None:
         res = res * scale
     if bias is not None:
         res = res + bias.unsqueeze(-1)
+    if kw.get("zscale") is not None:
+        res = res * kw["zscale"]
     return res * flag
 
 
@@ -62,9 +66,43 @@ def covar_keops(x1, x2, diag=False, **kw):
     return x1 @ x2.mT
 
 
+_USER = {}
+
+
+def user_wrap_class():
+    """A minimal user subclass whose constructor forwards an operator-valued and a tensor-valued keyword argument:
+    represents scale * (base + extra_op)."""
+    if "cls" in _USER:
+        return _USER["cls"]
+    from linear_operator.operators import LinearOperator
+
+    class UserWrapLinearOperator(LinearOperator):
+        def __init__(self, base, extra_op=None, scale=None):
+            super().__init__(base, extra_op=extra_op, scale=scale)
+            self.base, self.extra_op, self.scale = base, extra_op, scale
+
+        def _parts(self):
+            return [self.base] + ([self.extra_op] if self.extra_op is not None else [])
+
+        def _matmul(self, rhs):
+            res = sum(p._matmul(rhs) for p in self._parts())
+            return res if self.scale is None else res * self.scale.unsqueeze(-1).unsqueeze(-1)
+
+        def _size(self):
+            return self.base.size()
+
+        def _transpose_nonbatch(self):
+            return UserWrapLinearOperator(self.base._transpose_nonbatch(),
+                                          None if self.extra_op is None else self.extra_op._transpose_nonbatch(), self.scale)
+
+    _USER["cls"] = UserWrapLinearOperator
+    return UserWrapLinearOperator
+
+
 def recipes():
     """name -> builder(g: Gen, b: batch shape tuple) -> LinearOperator.  Names are part of the cell ids."""
     import linear_operator.operators as O
+    U = user_wrap_class()
     R = OrderedDict()
     R["Dense"] = lambda g, b: O.DenseLinearOperator(g.T(*b, 3, 3))
     R["DenseRect"] = lambda g, b: O.DenseLinearOperator(g.T(*b, 2, 3))
@@ -126,6 +164,21 @@ def recipes():
     R["Kernel"] = lambda g, b: O.KernelLinearOperator(g.T(*b, 3, 2), g.T(*b, 2, 2), covar_func=covar_lin, scale=g.T(*b, 1, 1), flag=2)
     R["Kernel(bias,nb)"] = lambda g, b: O.KernelLinearOperator(g.T(*b, 3, 2), g.T(2, 2), covar_func=covar_lin, bias=g.T(*b, 3),
                                                                scale=g.T(1, 1), num_nonbatch_dimensions={"bias": 1})
+    # operator-valued keyword arguments (flatten to >= 2 tensors) next to tensor-valued ones
+    R["Kernel(opkw)"] = lambda g, b: O.KernelLinearOperator(
+        g.T(*b, 3, 2), g.T(*b, 2, 2), covar_func=covar_lin, scale=g.T(*b, 1, 1),
+        task_covar=O.LowRankRootAddedDiagLinearOperator(O.LowRankRootLinearOperator(g.T(2, 1)), O.DiagLinearOperator(g.P(2))))
+    R["Kernel(opkw:Sum)"] = lambda g, b: O.KernelLinearOperator(
+        g.T(*b, 3, 2), g.T(*b, 2, 2), covar_func=covar_lin, bias=g.T(*b, 3), num_nonbatch_dimensions={"bias": 1},
+        task_covar=O.SumLinearOperator(O.DenseLinearOperator(g.T(2, 2)), O.ToeplitzLinearOperator(g.T(2))), zscale=g.T(*b, 1, 1))
+    R["UserWrap(Dense,op=Toeplitz,scale)"] = lambda g, b: U(O.DenseLinearOperator(g.T(*b, 3, 3)), extra_op=O.ToeplitzLinearOperator(g.T(*b, 3)), scale=g.T(*b))
+    R["UserWrap(Diag,op=Interp)"] = lambda g, b: U(O.DiagLinearOperator(g.T(*b, 3)), extra_op=O.InterpolatedLinearOperator(
+        O.DenseLinearOperator(g.T(*b, 3, 3)), g.I(*b, 3, 2), g.T(*b, 3, 2), g.I(*b, 3, 2), g.T(*b, 3, 2)))
+    R["UserWrap(Dense,scale)"] = lambda g, b: U(O.DenseLinearOperator(g.T(*b, 3, 3)), scale=g.T(*b))
+    R["Sum(UserWrap,Diag)"] = lambda g, b: O.SumLinearOperator(
+        U(O.DenseLinearOperator(g.T(*b, 3, 3)), extra_op=O.RootLinearOperator(g.T(*b, 3, 2)), scale=g.T(*b)), O.DiagLinearOperator(g.T(*b, 3)))
+    R["Matmul(Masked,Dense)"] = lambda g, b: O.MatmulLinearOperator(
+        O.MaskedLinearOperator(O.DenseLinearOperator(g.T(*b, 3, 3)), g.mask(3), torch.tensor([True, True, True])), O.DenseLinearOperator(g.T(*b, 3, 3)))
     R["KeOps"] = lambda g, b: O.KeOpsLinearOperator(g.T(*b, 3, 2), g.T(*b, 2, 2), covar_keops)
     # nestings
     R["Sum(Interp,Diag)"] = lambda g, b: O.SumLinearOperator(R["Interp"](g, b)[..., :3, :3] if False else O.InterpolatedLinearOperator(
@@ -648,6 +701,11 @@ def run_case(chk, enc, R, case, opnames, lines, expect, overridden):
                                       f"{(v.to(F64) - v0.to(F64)).abs().max().item() if v.shape == v0.shape else 'shape'})", pl)
             # model
             mc = model_cmd(opname)
+            if mc in ("rebuild", "rebuild2") and "ZeroLinearOperator" in enc_s:
+                # ZeroLinearOperator has a private representation tree (rebuilt from sizes/dtype/device, /repo 7504982)
+                # that the Lean model does not mirror: implementation-side checks above still apply.
+                chk.count("zero-rebuild-not-modelled")
+                mc = None
             if mc is not None and not (opname == "evaluate_kernel" and "evaluate_kernel" in overridden.get(cls, [])):
                 if opname == "rebuild2":
                     got = enc.encode(r, {}, [i + 1000 for i in pos_s])
